@@ -114,7 +114,7 @@ func (c *fctx) runCont(k *cont, n int) (string, error) {
 		return c.stmts(k.rest, k.next, n)
 	case "loopnext":
 		var b strings.Builder
-		if k.loop.Post != nil {
+		if k.loop != nil && k.loop.Post != nil {
 			s, err := c.stmts([]ast.Stmt{k.loop.Post}, &cont{kind: "loopcall", lname: k.lname, lro: k.lro}, n)
 			return s, err
 		}
@@ -129,7 +129,11 @@ func (c *fctx) runCont(k *cont, n int) (string, error) {
 func (c *fctx) loopCall(lname string, ro []string, n int) string {
 	lf := c.loops[len(c.loops)-1]
 	args := append([]string{}, ro...)
-	args = append(args, "fuel")
+	if lf.recArg != "" {
+		args = append(args, lf.recArg)
+	} else {
+		args = append(args, "fuel")
+	}
 	for _, o := range lf.mods {
 		args = append(args, c.names[o])
 	}
@@ -478,6 +482,8 @@ func (c *fctx) stmts(list []ast.Stmt, k *cont, n int) (string, error) {
 		return c.switchStmt(x, rest, k, restK, n)
 	case *ast.ForStmt:
 		return c.forStmt(x, rest, k, n)
+	case *ast.RangeStmt:
+		return c.rangeStmt(x, rest, k, n)
 	}
 	return "", fmt.Errorf("unsupported statement %T at %s", s, fset.Position(s.Pos()))
 }
